@@ -268,7 +268,16 @@ fn domain(bytes: &[u8]) -> (bool, bool) {
 fn typed_point_repeats_predecessor(h: &HitObject) -> bool {
     let HitObjectKind::Slider(s) = &h.kind else { return false };
     let cps = s.path.control_points();
-    cps.windows(2).enumerate().any(|(i, w)| w[0].pos == w[1].pos && (w[1].path_type.is_some() || (i > 0 && w[0].path_type.is_some())))
+    // (the first control point always starts a segment: a decoded list can only begin with two equal positions
+    // for a Catmull path, where the split at index 1 drops one copy at every reading)
+    cps.windows(2).any(|w| w[0].pos == w[1].pos && (w[1].path_type.is_some() || w[0].path_type.is_some()))
+}
+
+/// F20: the slider has no requested length and its computed distance is above the limit (131072) that the
+/// decoder enforces on the length field
+fn computed_length_above_limit(h: &mut HitObject) -> bool {
+    let HitObjectKind::Slider(s) = &mut h.kind else { return false };
+    s.path.expected_dist().is_none() && s.path.curve().dist() > 131072.0
 }
 
 /// F15 is only accepted as the explanation when the same file with the map's `Mode` announced
@@ -329,6 +338,9 @@ fn prop_rt_inner(bytes: &[u8], explain: bool) -> String {
             if m1.hit_objects.iter().any(typed_point_repeats_predecessor) {
                 tags.push("repeated-point-at-segment-start");
             }
+            if m1.hit_objects.iter_mut().any(computed_length_above_limit) {
+                tags.push("computed-length-above-parse-limit");
+            }
             if m1.hit_objects.iter().any(|h| match &h.kind {
                 HitObjectKind::Slider(s) => s.node_samples.iter().flatten().any(|x| matches!(x.name, rosu_map::section::hit_objects::hit_samples::HitSampleInfoName::File(_))),
                 _ => false,
@@ -363,11 +375,24 @@ pub fn prop_lines(bytes: &[u8]) -> String {
         let lost = body.iter().find(|l| !seen.contains(&l.trim_end()));
         return format!("FAIL {} of {} record lines reached a parser; e.g. lost {:?}", p.log.len(), body.len(), lost);
     }
-    for ((l, rej), want) in p.log.iter().zip(&body) {
+    for (i, ((l, rej), want)) in p.log.iter().zip(&body).enumerate() {
         if l != want.trim_end() {
             return format!("FAIL line reached the parser as {l:?}, written as {want:?}");
         }
         if *rej {
+            // F20: a slider line whose length field (the computed distance of a slider decoded without a requested
+            // length) is above the decoder's limit of 131072 — and which is otherwise acceptable
+            let f: Vec<&str> = l.split(',').collect();
+            let is_slider = p.sections.get(i) == Some(&7) && f.len() > 7 && f[3].parse::<i32>().map_or(false, |t| t & 2 != 0);
+            if is_slider && f[7].parse::<f64>().map_or(false, |x| x > 131072.0 && x.is_finite()) {
+                let mut g = f.clone();
+                g[7] = "1";
+                // acceptance of the line with an in-range length is judged by a fresh HitObjects decode
+                let repaired = format!("osu file format v{}\n\n[HitObjects]\n{}\n", m1.format_version, g.join(","));
+                if rosu_map::from_str::<rosu_map::section::hit_objects::HitObjects>(&repaired).map_or(false, |h| h.hit_objects.len() == 1) {
+                    return format!("FAIL encoder wrote a line its decoder rejects: {l:?} explained=computed-length-above-parse-limit");
+                }
+            }
             return format!("FAIL encoder wrote a line its decoder rejects: {l:?}");
         }
     }
